@@ -60,12 +60,18 @@ func (c *Ctx) add(v Verdict, key string, pos token.Pos, format string, a ...inte
 func (c *Ctx) addAt(v Verdict, key string, pos string, format string, a ...interface{}) {
 	c.obls = append(c.obls, Obligation{Rule: c.rule.ID, Key: key, Pos: pos, Verdict: v, Detail: fmt.Sprintf(format, a...)})
 }
-func (c *Ctx) Hold(key string, pos token.Pos, f string, a ...interface{})    { c.add(Holds, key, pos, f, a...) }
-func (c *Ctx) Violate(key string, pos token.Pos, f string, a ...interface{}) { c.add(Violated, key, pos, f, a...) }
+func (c *Ctx) Hold(key string, pos token.Pos, f string, a ...interface{}) {
+	c.add(Holds, key, pos, f, a...)
+}
+func (c *Ctx) Violate(key string, pos token.Pos, f string, a ...interface{}) {
+	c.add(Violated, key, pos, f, a...)
+}
 func (c *Ctx) Undecided(key string, pos token.Pos, f string, a ...interface{}) {
 	c.add(Undecided, key, pos, f, a...)
 }
-func (c *Ctx) Info(key string, pos token.Pos, f string, a ...interface{}) { c.add(Info, key, pos, f, a...) }
+func (c *Ctx) Info(key string, pos token.Pos, f string, a ...interface{}) {
+	c.add(Info, key, pos, f, a...)
+}
 func (c *Ctx) Check(ok bool, key string, pos token.Pos, f string, a ...interface{}) {
 	if ok {
 		c.add(Holds, key, pos, f, a...)
